@@ -85,7 +85,18 @@ def instantiate(repo: Repo, make: str, ph: list[str]) -> tuple[str, _types.CodeT
     return src, fns[0], defs[0]
 
 
-def patched(repo: Repo, gen: str, code: _types.CodeType, n: int, union_or_struct_init: bool):
+def field_names(n: int, scheme: str, ph: list[str]) -> list[str]:
+    """Names given to the fields when the patcher is evaluated.
+
+    'neutral': F0..Fn-1.  'shifted': field i is named like the placeholder of position i+1 (a user may call fields ``_1``, ``_2``):
+    a patcher that substitutes by *name* instead of by position confuses them.
+    """
+    if scheme == "neutral" or n < 2:
+        return [f"F{i}" for i in range(n)]
+    return [ph[(i + 1) % n] for i in range(n)]
+
+
+def patched(repo: Repo, gen: str, code: _types.CodeType, n: int, union_or_struct_init: bool, names: list[str] | None = None):
     """Symbolically evaluate the _generate_* patcher over the template's code object. -> (CodeSym, field symbols)"""
     st = repo.module("types/structure.py")
     fi = repo.func("types/structure.py", gen)
@@ -109,9 +120,10 @@ def patched(repo: Repo, gen: str, code: _types.CodeType, n: int, union_or_struct
     for kind, (mk, _g) in KINDS.items():
         env[mk] = Host(lambda k, _c=base: func_sym(_c) if k == n else (_ for _ in ()).throw(Refused(f"template requested for {k} fields, structure has {n}")))
     if union_or_struct_init:
-        fields = [Sym(f"field{i}", attrs={"_name": f"F{i}", "name": f"F{i}", "type": Sym(f"type{i}", methods={"__default__": (lambda i=i: Sym(f"D{i}"))})}) for i in range(n)]
+        nm = names or [f"F{i}" for i in range(n)]
+        fields = [Sym(f"field{i}", attrs={"_name": nm[i], "name": nm[i], "type": Sym(f"type{i}", methods={"__default__": (lambda i=i: Sym(f"D{i}"))})}) for i in range(n)]
     else:
-        fields = [f"F{i}" for i in range(n)]
+        fields = list(names or [f"F{i}" for i in range(n)])
     try:
         ev = Evaluator(env)
         ev.call_user(UserFunc(fi.node, env), [fields], {})
@@ -122,17 +134,18 @@ def patched(repo: Repo, gen: str, code: _types.CodeType, n: int, union_or_struct
     return result["code"]
 
 
-def expected(code: _types.CodeType, ph: list[str], kind: str) -> CodeSym:
+def expected(code: _types.CodeType, ph: list[str], kind: str, fnames: list[str] | None = None) -> CodeSym:
     """The template with placeholder i replaced by field i (names) / default i (integer constants of the init templates)."""
     idx = {p: i for i, p in enumerate(ph)}
-    names = tuple(f"F{idx[x]}" if x in idx else x for x in code.co_names)
-    varnames = tuple(f"F{idx[x]}" if x in idx else x for x in code.co_varnames)
+    fn_ = fnames or [f"F{i}" for i in range(len(ph))]
+    names = tuple(fn_[idx[x]] if x in idx else x for x in code.co_names)
+    varnames = tuple(fn_[idx[x]] if x in idx else x for x in code.co_varnames)
     consts = []
     for c in code.co_consts:
         if kind in ("init", "uinit") and isinstance(c, int) and not isinstance(c, bool) and 0 <= c < len(ph):
             consts.append(Sym(f"D{c}"))
         elif kind == "uinit" and isinstance(c, str) and c in idx:
-            consts.append(f"F{idx[c]}")
+            consts.append(fn_[idx[c]])
         else:
             consts.append(c)
     return CodeSym(names, consts, varnames)
@@ -168,8 +181,8 @@ def _check_template_ast(kind: str, fn: ast.FunctionDef, ph: list[str]) -> str | 
                 sides[next(iter(owners))] = True
         if n and set(sides) != {"self", "other"}:
             return "__eq__ template does not compare self's fields with other's fields"
-        if not (isinstance(body[1], ast.Return) and norm(body[1].value) == "False"):
-            return "__eq__ template does not return False for another class"
+        if not (isinstance(body[1], ast.Return) and norm(body[1].value) in ("False", "NotImplemented")):
+            return "__eq__ template does not return False / NotImplemented for another class"
         return None
     if kind in ("bool", "hash"):
         if args != ["self"] or len(body) != 1 or not isinstance(body[0], ast.Return) or not isinstance(body[0].value, ast.Call):
@@ -229,24 +242,26 @@ def layout_rule(repo: Repo, rep: Report, R1: str, R2: str, max_n: int) -> None:
             complaint = _check_template_ast(kind, fn, ph)
             if complaint and first_bad_ast is None:
                 first_bad_ast = (n, complaint)
-            got = patched(repo, gen, code, n, kind in ("init", "uinit"))
-            exp = expected(code, ph, kind)
-            diffs = []
-            for attr in ("co_names", "co_varnames", "co_consts"):
-                g, e = getattr(got, attr), getattr(exp, attr)
-                if g != e and kind in ("eq", "bool", "hash") and attr == "co_names" and len(g) == len(e):
-                    # these methods read every field through one shared name slot per field: any bijection slot -> field is the same method
-                    slots = [i for i, x in enumerate(code.co_names) if x in ph]
-                    if all(g[i] == e[i] for i in range(len(e)) if i not in slots) and sorted(g[i] for i in slots) == sorted(f"F{k}" for k in range(n)):
-                        continue
-                if g != e:
-                    where = next((i for i, (a, b) in enumerate(zip(g, e)) if a != b), min(len(g), len(e)))
-                    diffs.append(f"{attr}: patched {_fmt(g, where)} but the template needs {_fmt(e, where)} (first difference at index {where}; "
-                                 f"{'patched by ' + gen if attr in got.replaced else 'NOT patched although the template keeps placeholders there'})")
-            if diffs and first_bad_layout is None:
-                first_bad_layout = (n, "; ".join(diffs))
-            if not diffs:
-                ok_count += 1
+            for scheme in ("neutral", "shifted"):
+                fnames = field_names(n, scheme, ph)
+                got = patched(repo, gen, code, n, kind in ("init", "uinit"), fnames)
+                exp = expected(code, ph, kind, fnames)
+                diffs = []
+                for attr in ("co_names", "co_varnames", "co_consts"):
+                    g, e = getattr(got, attr), getattr(exp, attr)
+                    if g != e and kind in ("eq", "bool", "hash") and attr == "co_names" and len(g) == len(e):
+                        # these methods read every field through one shared name slot per field: any bijection slot -> field is the same method
+                        slots = [i for i, x in enumerate(code.co_names) if x in ph]
+                        if all(g[i] == e[i] for i in range(len(e)) if i not in slots) and sorted(g[i] for i in slots) == sorted(fnames):
+                            continue
+                    if g != e:
+                        where = next((i for i, (a, b) in enumerate(zip(g, e)) if a != b), min(len(g), len(e)))
+                        diffs.append(f"[fields named {fnames[:3]}...] {attr}: patched {_fmt(g, where)} but the template needs {_fmt(e, where)} (first difference at index "
+                                     f"{where}; {'patched by ' + gen if attr in got.replaced else 'NOT patched although the template keeps placeholders there'})")
+                if diffs and first_bad_layout is None:
+                    first_bad_layout = (n, "; ".join(diffs))
+                if not diffs:
+                    ok_count += 1
         fi = repo.func("types/structure.py", gen)
         mf = repo.func("types/structure.py", mk)
         key1 = f"{fi.key}:layout n=0..{max_n}"
@@ -348,3 +363,6 @@ def run(repo: Repo, rep: Report, tier: str) -> None:
     layout_rule(repo, rep, "C17.R1", "C17.R2", max_n)
     one_list_rule(repo, rep, "C17.R3")
     cache_rule(repo, rep, "C17.R4")
+    from .c02 import offset_pad_rule
+
+    offset_pad_rule(repo, rep, "C17.R5")
